@@ -156,6 +156,16 @@ int main()
     memcpy(b, &pp, 8); printf("def pointDefault : List UInt8 := ["); for (int i=0; i<8; i++) printf("%s%u", i?", ":"", b[i]); printf("]   -- in-memory bytes of Point()\n");}
    K("sizeofPoint", sizeof(Point)); K("sizeofRect", sizeof(Rect)); K("sizeofBool", sizeof(bool));
    K("timeNever", (uint64)MUSCLE_TIME_NEVER);   // C20: "no pulse wanted" (util/TimeUtilityFunctions.h)
+   K("encodingZlib1", (uint32)MUSCLE_MESSAGE_ENCODING_ZLIB_1);
+   K("encodingZlib2", (uint32)MUSCLE_MESSAGE_ENCODING_ZLIB_2);
+   K("encodingZlib3", (uint32)MUSCLE_MESSAGE_ENCODING_ZLIB_3);
+   K("encodingZlib4", (uint32)MUSCLE_MESSAGE_ENCODING_ZLIB_4);
+   K("encodingZlib5", (uint32)MUSCLE_MESSAGE_ENCODING_ZLIB_5);
+   K("encodingZlib6", (uint32)MUSCLE_MESSAGE_ENCODING_ZLIB_6);
+   K("encodingZlib7", (uint32)MUSCLE_MESSAGE_ENCODING_ZLIB_7);
+   K("encodingZlib8", (uint32)MUSCLE_MESSAGE_ENCODING_ZLIB_8);
+   K("encodingZlib9", (uint32)MUSCLE_MESSAGE_ENCODING_ZLIB_9);
+   {MessageIOGateway gw; struct X : public MessageIOGateway {uint32 hs() const {return GetHeaderSize();}} x; K("gatewayHeaderSize", x.hs());}
    printf("\n/- tunables: enter the model as parameters; theorems are quantified over them -/\n");
    K("maxMessageNestingDepth", (uint32)MUSCLE_MAX_MESSAGE_NESTING_DEPTH);
    printf("\n/-- flattened size per item of the fixed-size field types, 0 = variable size\n    (tabulated from the compiled `Message::GetElementSize` / wire sizes) -/\n");
